@@ -4,6 +4,7 @@ import c11lib as L
 NAME = "view"
 MODULE = "cspuz.puzzle.view"
 FUNC = "solve_view"
+TIER1 = ("View", "solve_view_model")
 
 
 def call(mod, pb):
@@ -43,6 +44,40 @@ def tier2(tier, rng):
             yield {"h": h, "w": w, "grid": g}
     for g in L.sample(rng, L.all_grids(2, 2, _values(2, 2)), 10 if th else 2):
         yield {"h": 2, "w": 2, "grid": g}
+
+
+def _t1_values(h, w):
+    """no number, another negative value (read as no number too), every value of the domain 0 .. h + w of nums and
+    two values beyond it"""
+    return [-1, -3] + list(range(0, h + w + 3))
+
+
+def tier1_problems(tier, rng):
+    """program-capture tie: every clue layout of the boards with up to 3 cells, samples of all layouts of the boards with
+    4 to 6 cells (both orientations), random layouts on larger and non-square boards (1xN, Nx1, up to 8x8) with values
+    at and beyond the ends of the domain of nums, all-clue boards, boards without cells (ValueError from the
+    connectivity helper) and grids with missing trailing cells (IndexError)"""
+    th = tier == "thorough"
+    for (h, w) in [(1, 1), (1, 2), (2, 1)]:
+        for g in L.all_grids(h, w, _t1_values(h, w)):
+            yield {"h": h, "w": w, "grid": g}
+    for (h, w) in [(1, 3), (3, 1)]:
+        for g in L.sample(rng, L.all_grids(h, w, _t1_values(h, w)), 400 if th else 60):
+            yield {"h": h, "w": w, "grid": g}
+    for (h, w) in [(2, 2), (1, 4), (4, 1), (1, 5), (5, 1), (2, 3), (3, 2), (1, 6), (6, 1)]:
+        for _ in range(60 if th else 12):
+            yield {"h": h, "w": w, "grid": L.random_grid(rng, h, w, _t1_values(h, w), rng.choice([0.2, 0.5, 0.8]))}
+    for (h, w) in [(3, 3), (2, 5), (5, 2), (4, 4), (3, 6), (6, 3), (6, 5), (5, 7), (1, 7), (7, 1), (1, 9), (7, 7), (8, 8)]:
+        for p in [0.3, 0.6, 0.8, 0.9] * (3 if th else 1):
+            yield {"h": h, "w": w, "grid": L.random_grid(rng, h, w, _t1_values(h, w), p)}
+        yield {"h": h, "w": w, "grid": [[rng.randint(0, h + w + 1) for _ in range(w)] for _ in range(h)]}
+    for (h, w) in [(0, 0), (0, 2), (2, 0)]:
+        yield {"h": h, "w": w, "grid": [[] for _ in range(h)]}
+    for (h, w) in [(1, 1), (2, 2), (2, 3), (3, 2), (4, 4)]:
+        g = L.random_grid(rng, h, w, _t1_values(h, w), 0.5)
+        yield {"h": h, "w": w, "grid": g[:-1]}                              # the last row is missing
+        yield {"h": h, "w": w, "grid": g[:-1] + [g[-1][:-1]]}               # the last cell is missing
+        yield {"h": h, "w": w, "grid": [[1] * w for _ in range(h - 1)] + [[]]}  # an empty last row after all-clue rows
 
 
 def big(tier, rng):
